@@ -51,6 +51,8 @@ pub fn run_one(spec: &SessionSpec, timeout: Duration) -> Result<SessionResult, W
     if let Some(tz) = &spec.tz_env {
         cmd.env("TZ", tz);
     }
+    // N11: the driver itself runs with ADDR_NO_RANDOMIZE (set in main); workers inherit the persona.
+    // No pre_exec closure here: it would force fork() instead of posix_spawn() and a COW storm in the driver.
     let mut child = cmd.spawn().map_err(|e| WorkerError::Died(format!("spawn: {e}")))?;
     let input = serde_json::to_vec(spec).expect("serialise spec");
     let mut stdin = child.stdin.take().unwrap();
